@@ -109,9 +109,13 @@ func c20Trunc(c *Ctx, raw json.RawMessage) {
 	}
 	c.Eval(shape)
 	c.Rule(map[bool]string{true: "cuts", false: "unchanged"}[cuts])
-	var got string
+	var got, again, optsLeft string
 	o := guarded(3*time.Second, func() (string, error) {
-		got = text.Truncate(s, hctx.Map{"size": tc.Size, "trail": trail})
+		// (one options map serves two calls: it is the caller's, the helper only reads it)
+		opts := hctx.Map{"size": tc.Size, "trail": trail}
+		got = text.Truncate(s, opts)
+		again = text.Truncate(s, opts)
+		optsLeft = fmt.Sprintf("%v/%v/%d", opts["size"], opts["trail"], len(opts))
 		return "", nil
 	})
 	if cuts && len(tc.S) >= 3 && hasBad {
@@ -158,6 +162,9 @@ func c20Trunc(c *Ctx, raw json.RawMessage) {
 		c.Fail("truncate:differs-from-model:"+cls, fmt.Sprintf("Truncate(%q, size %d, trail %q) = %q, the model gives %q", s, tc.Size, trail, got, want), cas)
 		return
 	}
+	if o.Panic == "" && !o.Hang && (again != got || optsLeft != fmt.Sprintf("%v/%v/2", tc.Size, trail)) {
+		c.Fail("truncate:options-consumed:"+cls, fmt.Sprintf("Truncate(%q, opts) twice with one options map {size: %d, trail: %q}: %q then %q, the map afterwards: %s", s, tc.Size, trail, got, again, optsLeft), cas)
+	}
 	// from a template (valid UTF-8 only: the template source carries the trail as a literal)
 	if hasBad || strings.ContainsAny(trail, "\"\\") || len(tc.S) > 4 {
 		return
@@ -169,6 +176,12 @@ func c20Trunc(c *Ctx, raw json.RawMessage) {
 	ro := guarded(3*time.Second, func() (string, error) { return plush.Render(`<%= raw(truncate(s, {size: n, trail: t})) %>`, ctx) })
 	if ro.Out != want || ro.IsErr || ro.Panic != "" {
 		c.Fail("truncate:template:"+cls, fmt.Sprintf("truncate(%q, {size: %d, trail: %q}) in a template: %+v, want %q", s, tc.Size, trail, ro, want), cas)
+	}
+	ro2 := guarded(3*time.Second, func() (string, error) {
+		return plush.Render(`<% let o = {size: n, trail: t} %><%= raw(truncate(s, o)) %>|<%= raw(truncate(s, o)) %>|<%= len(o) %>`, ctx)
+	})
+	if ro2.Out != want+"|"+want+"|2" || ro2.IsErr || ro2.Panic != "" {
+		c.Fail("truncate:template-shared-options:"+cls, fmt.Sprintf("truncate(%q, o) twice with o = {size: %d, trail: %q} in a template: %+v, want %q", s, tc.Size, trail, ro2, want+"|"+want+"|2"), cas)
 	}
 }
 
